@@ -5,7 +5,7 @@ From Coq Require Import ZifyBool Permutation.
 
 Inductive rop :=
 | RInsert (i : Z) (v : donor) (fr : Z) | RAppend (v : donor) (fr : Z) | RExtend (vs : list donor) (fr : Z)
-| RSetInt (i : Z) (v : donor) (fr : Z) | RSetSlice (sl : slc) (vs : list donor) (fr : Z)
+| RSetInt (i : Z) (same : bool) (v : donor) (fr : Z) | RSetSlice (sl : slc) (vs : list donor) (fr : Z)
 | RDel (ix : pyidx) (fr : Z) | RPop (i : Z) | RClear | RDropMany (l : list Z).
 
 
@@ -60,7 +60,7 @@ Definition run_op (s : st) (o : rop) : st * res unit :=
   | RInsert i v fr => let '(s', _, r) := insert ph seps sepsb s i v fr in (s', r)
   | RAppend v fr => let '(s', _, r) := append ph seps sepsb s v fr in (s', r)
   | RExtend vs fr => let '(s', _, r) := extend ph seps sepsb s vs fr in (s', r)
-  | RSetInt i v fr => let '(s', _, r) := setitem_int s i v in (s', r)
+  | RSetInt i same v fr => let '(s', _, r) := setitem_int s i same v in (s', r)
   | RSetSlice sl vs fr => let '(s', _, r) := setitem_slice ph seps sepsb s sl vs fr in (s', r)
   | RDel ix fr => let '(s', _, r) := delitem ph seps sepsb s ix fr in (s', r)
   | RPop i => let '(s', _, r) := pop ph s i in (s', match r with Ok _ => Ok tt | Err e => Err e end)
@@ -71,18 +71,28 @@ Definition run_op (s : st) (o : rop) : st * res unit :=
 (* arguments well-formed (what the API guarantees for any call): fresh values, step-1 slices *)
 Definition op_fresh (s : st) (o : rop) : Prop :=
   match o with
-  | RInsert _ v fr | RAppend v fr | RSetInt _ v fr => args_fresh fr (s_doc s) [v]
+  | RInsert _ v fr | RAppend v fr => args_fresh fr (s_doc s) [v]
+  | RSetInt _ same v fr => same = true \/ args_fresh fr (s_doc s) [v]
   | RExtend vs fr => args_fresh fr (s_doc s) vs
   | RSetSlice sl vs fr => args_fresh fr (s_doc s) vs
   | RDel ix fr => forall x, In x (ids (s_doc s)) -> x < fr
-  | RDropMany l => NoDup l /\ (forall y, In y l -> 0 <= y < zlen (s_items s))
-  | RPop _ | RClear => True
+  | RPop _ | RClear | RDropMany _ => True
+  end.
+(* what a REFUSED call may look like: anything - attached nodes of the same or of another document,
+   the same node twice in a batch, missing indices; only a batch that passes the up-front test (all
+   values free, each offered once) must consist of values that are new to the document *)
+Definition op_err_ok (s : st) (o : rop) : Prop :=
+  match o with
+  | RSetSlice sl vs fr => forallb detachable vs = true -> NoDup (map d_node vs) -> args_fresh fr (s_doc s) vs
+  | RDel ix fr => forall x, In x (ids (s_doc s)) -> x < fr
+  | _ => True
   end.
 (* ... and free values, each offered once *)
 Definition op_ok (s : st) (o : rop) : Prop :=
   op_fresh s o /\
   match o with
-  | RInsert _ v _ | RAppend v _ | RSetInt _ v _ => detachable v = true
+  | RInsert _ v _ | RAppend v _ => detachable v = true
+  | RSetInt _ same v _ => same = true \/ detachable v = true
   | RExtend vs _ | RSetSlice _ vs _ => forallb detachable vs = true /\ NoDup (map d_node vs)
   | _ => True
   end.
@@ -113,7 +123,7 @@ Proof.
                  Edit cs cs' M news -> (Sep seps sepsb cs -> Sep seps sepsb cs') ->
                  LayS s' /\ FrameS (mkst (lay pre pht cs post) (map item_of cs)) s').
   { intros cs' M news E Hw He Hs. eapply FinC; [exact E|exact Hw|eapply edits_one_wf; eassumption|exact Hs]. }
-  destruct o as [i v fr|v fr|vs fr|i v fr|sl vs fr|ix fr|i| |l]; cbn [run_op op_fresh op_ok] in *.
+  destruct o as [i v fr|v fr|vs fr|i same v fr|sl vs fr|ix fr|i| |l]; cbn [run_op op_fresh op_ok] in *.
   - destruct (insert_layout ph seps sepsb Hseps Hsepsb pre pht cs post i v fr Hwf) as (cs' & E & Hw & He & _ & Hs).
     { apply donors_ok_of_fresh; [exact Hf|now apply one_detachable]. }
     rewrite E in H. injection H as Hs'. eapply Fin; [symmetry; exact Hs'|exact Hw|exact He|exact Hs].
@@ -124,11 +134,15 @@ Proof.
     destruct (extend_layout ph seps sepsb Hseps Hsepsb pre pht cs post vs fr Hwf) as (cs' & E & Hw & He & _ & Hs);
       [now apply donors_ok_of_fresh|exact Hn|].
     rewrite E in H. injection H as Hs'. eapply Fin; [symmetry; exact Hs'|exact Hw|exact He|exact Hs].
-  - destruct (setitem_int (mkst (lay pre pht cs post) (map item_of cs)) i v) as [[s1 dl] r] eqn:E.
-    inversion H; subst s1 r.
-    destruct (setitem_int_layout ph pre pht cs post i v fr s' dl Hwf) as (A & c & B & -> & _ & _ & Es & Hw & He); [|exact E|].
-    { apply donors_ok_of_fresh; [exact Hf|now apply one_detachable]. }
-    eapply Fin; [exact Es|exact Hw|exact He|apply Sep_set].
+  - destruct same.
+    + rewrite setitem_int_same in H. injection H as Hs' _.
+      eapply FinC; [symmetry; exact Hs'|exact Hwf|constructor|tauto].
+    + destruct Hf as [Hf|Hf]; [discriminate|]. destruct Hk as [Hk|Hk]; [discriminate|].
+      destruct (setitem_int (mkst (lay pre pht cs post) (map item_of cs)) i false v) as [[s1 dl] r] eqn:E.
+      inversion H; subst s1 r.
+      destruct (setitem_int_layout ph pre pht cs post i v fr s' dl Hwf) as (A & c & B & -> & _ & _ & Es & Hw & He); [|exact E|].
+      { apply donors_ok_of_fresh; [exact Hf|now apply one_detachable]. }
+      eapply Fin; [exact Es|exact Hw|exact He|apply Sep_set].
   - destruct Hk as [Hd Hn].
     pose proof (donors_ok_of_fresh _ _ _ Hf Hd) as Hdon.
     destruct (slice_indices (zlen cs) sl) as [[[a b] k]|e] eqn:Esl.
@@ -164,9 +178,9 @@ Proof.
     eapply Fin; [exact Es|exact Hw|exact He|]. intro HS. now apply Sep_del.
   - destruct (clear_layout ph pre pht cs post Hwf) as (E & Hw & He).
     rewrite E in H. injection H as Hs'. eapply Fin; [symmetry; exact Hs'|exact Hw|exact He|intro; exact I].
-  - destruct Hf as [Hn Hb]. cbn [s_items] in Hb. rewrite zlen_map in Hb.
-    destruct (drop_many_layout ph seps sepsb pre pht cs post l Hwf Hn Hb) as (cs' & M & E & Hw & He & Hs & _).
-    rewrite E in H. injection H as Hs'. eapply FinC; [symmetry; exact Hs'|exact Hw|exact He|exact Hs].
+  - destruct (drop_many_layout ph seps sepsb pre pht cs post l Hwf) as [(e & E)|(cs' & M & E & Hw & He & Hs)].
+    + rewrite E in H. discriminate.
+    + rewrite E in H. injection H as Hs'. eapply FinC; [symmetry; exact Hs'|exact Hw|exact He|exact Hs].
 Qed.
 
 Lemma list_pop_of_get : forall {A} (l : list A) i x, list_get_int l i = Ok x -> exists y, list_pop l i = Ok y.
@@ -176,15 +190,16 @@ Proof.
 Qed.
 
 (* C19 under the invariant: a refused operation leaves document and items exactly as they were *)
-Theorem step_err : forall s o s' e, LayS s -> op_fresh s o -> run_op s o = (s', Err e) -> s' = s.
+Theorem step_err : forall s o s' e, LayS s -> op_err_ok s o -> run_op s o = (s', Err e) -> s' = s.
 Proof.
   intros [d items] o s' e (pre & pht & cs & post & Ed & Ei & Hwf) Hf H. cbn [s_doc s_items] in *. subst d items.
-  destruct o as [i v fr|v fr|vs fr|i v fr|sl vs fr|ix fr|i| |l]; cbn [run_op op_fresh] in *.
+  destruct o as [i v fr|v fr|vs fr|i same v fr|sl vs fr|ix fr|i| |l]; cbn [run_op op_err_ok] in *.
   - destruct (insert _ _ _ _ _ _ _) as [[s1 dl] r] eqn:E. inversion H; subst. eapply insert_atomic; exact E.
   - destruct (append _ _ _ _ _ _) as [[s1 dl] r] eqn:E. inversion H; subst. eapply append_atomic; exact E.
   - destruct (extend _ _ _ _ _ _) as [[s1 dl] r] eqn:E. inversion H; subst. eapply extend_atomic; exact E.
   - unfold setitem_int in H. cbn [s_doc s_items] in H.
     destruct (list_get_int (map item_of cs) i) as [it|e0] eqn:Eg; [|now inversion H].
+    destruct same; [discriminate|].
     destruct (detach v) as [[ts v']|e0]; [|now inversion H].
     destruct (st_splice ts (fst it) (snd it) (lay pre pht cs post)); [|now inversion H].
     unfold list_set_int in H. unfold list_get_int in Eg.
@@ -201,7 +216,7 @@ Proof.
       [|now inversion E0].
     destruct (check_detachable_nodup _ _ Ec) as [Hn _].
     pose proof (check_detachable_ok _ _ Ec) as Hd.
-    pose proof (donors_ok_of_fresh _ _ _ Hf Hd) as Hdon.
+    pose proof (donors_ok_of_fresh _ _ _ (Hf Hd Hn) Hd) as Hdon.
     destruct (Z.eq_dec k 1) as [->|Hk1].
     + exfalso.
       destruct (setslice_layout ph seps sepsb Hseps Hsepsb pre pht cs post sl vs fr Hwf Hdon Hn) as (A & M & B & cs' & _ & E & _);
@@ -227,16 +242,16 @@ Proof.
     destruct r as [toks|e0]; [discriminate|]. inversion H; subst s1 e0.
     eapply pop_atomic; [exact E|]. intros x Hx. eapply list_pop_of_get. exact Hx.
   - destruct (clear _ _) as [[s1 dl] r] eqn:E. inversion H; subst. eapply clear_atomic; exact E.
-  - exfalso. destruct Hf as [Hn Hb]. cbn [s_items] in Hb. rewrite zlen_map in Hb.
-    destruct (drop_many_layout ph seps sepsb pre pht cs post l Hwf Hn Hb) as (cs' & M & E & _).
-    rewrite E in H. discriminate.
+  - destruct (drop_many_layout ph seps sepsb pre pht cs post l Hwf) as [(e0 & E)|(cs' & M & E & _)].
+    + rewrite E in H. now inversion H.
+    + rewrite E in H. discriminate.
 Qed.
 
 (* histories: each call is either accepted (its values are free) or refused *)
 Inductive Hist : st -> list rop -> st -> Prop :=
 | H_nil : forall s, Hist s [] s
 | H_ok : forall s o s' r s'', op_ok s o -> run_op s o = (s', Ok tt) -> Hist s' r s'' -> Hist s (o :: r) s''
-| H_err : forall s o s' e r s'', op_fresh s o -> run_op s o = (s', Err e) -> Hist s' r s'' -> Hist s (o :: r) s''.
+| H_err : forall s o s' e r s'', op_err_ok s o -> run_op s o = (s', Err e) -> Hist s' r s'' -> Hist s (o :: r) s''.
 
 Theorem history_layout : forall s ops s', Hist s ops s' -> LayS s -> LayS s'.
 Proof.
@@ -251,7 +266,7 @@ Qed.
 Theorem history_step : forall s0 ops s o s',
   LayS s0 -> Hist s0 ops s ->
   (op_ok s o -> run_op s o = (s', Ok tt) -> LayS s' /\ FrameS s s') /\
-  (forall e, op_fresh s o -> run_op s o = (s', Err e) -> s' = s).
+  (forall e, op_err_ok s o -> run_op s o = (s', Err e) -> s' = s).
 Proof.
   intros s0 ops s o s' HL0 HH. pose proof (history_layout _ _ _ HH HL0) as HL. split.
   - intros Hok Hrun. now apply (step_ok s o s').
@@ -265,48 +280,48 @@ Proof.
   unfold all_sep in Hg. rewrite forallb_forall in Hg. now apply Hg.
 Qed.
 
-(* one edit: one window; outside it the token lists are identical; inside, every token of the new
-   document is an old token of a sibling item, a separator-kind token, or a token of the new children;
-   every old token that disappeared is a separator-kind token or belongs to a removed item *)
+(* one edit: one window X | W | Y; outside it the token lists are identical; the window holds NO token
+   of a sibling: every token of the new window is a separator-kind token or a token of the new
+   children, every token of the old window is a separator-kind token or belongs to a removed item.
+   The separators that may change are the gaps of the new / removed cells and the gap of the one cell
+   right after them: directly adjacent to the children. *)
 Theorem frame_tokens_edit : forall pre pht cs cs' post M news,
   Forall cell_ok cs -> Forall cell_ok cs' -> Edit cs cs' M news ->
   exists X W W' Y,
     lay pre pht cs post = X ++ W ++ Y /\ lay pre pht cs' post = X ++ W' ++ Y /\
-    (forall t, In t W' -> In t W \/ is_sep (tkind t) = true \/ exists b, In b news /\ In t b) /\
-    (forall t, In t W -> In t W' \/ is_sep (tkind t) = true \/ exists c, In c M /\ In t (c_body c)).
+    (forall t, In t W' -> is_sep (tkind t) = true \/ exists b, In b news /\ In t b) /\
+    (forall t, In t W -> is_sep (tkind t) = true \/ exists c, In c M /\ In t (c_body c)).
 Proof.
-  intros pre pht cs cs' post M news Hok Hok' (A & B & Nc & B' & -> & -> & En & Eb).
-  exists (pre ++ pht :: flat A), (flat M ++ flat B), (flat Nc ++ flat B'), post.
-  split; [unfold lay; rewrite !flat_app; repeat rewrite <- app_assoc; reflexivity|].
-  split; [unfold lay; rewrite !flat_app; repeat rewrite <- app_assoc; reflexivity|].
+  intros pre pht cs cs' post M news Hok Hok' (A & B & Nc & B' & -> & -> & En & Et).
   apply Forall_app_inv in Hok. destruct Hok as [_ Hok]. apply Forall_app_inv in Hok. destruct Hok as [HokM HokB].
   apply Forall_app_inv in Hok'. destruct Hok' as [_ Hok']. apply Forall_app_inv in Hok'. destruct Hok' as [HokN HokB'].
-  split.
-  - intros t Ht. apply in_app_or in Ht. destruct Ht as [Ht|Ht].
-    + destruct (in_flat _ _ Ht) as (c & Hc & [Hg|Hb]).
-      * right. left. eapply (gap_sep Nc); eassumption.
-      * right. right. exists (c_body c). split; [rewrite <- En; now apply in_map|exact Hb].
-    + destruct (in_flat _ _ Ht) as (c & Hc & [Hg|Hb]).
-      * right. left. eapply (gap_sep B'); eassumption.
-      * left. apply in_or_app. right.
-        assert (Hin : In (c_body c) (map c_body B)) by (rewrite <- Eb; now apply in_map).
-        apply in_map_iff in Hin. destruct Hin as (c2 & E2 & Hc2). eapply in_flat_body; [exact Hc2|now rewrite E2].
-  - intros t Ht. apply in_app_or in Ht. destruct Ht as [Ht|Ht].
-    + destruct (in_flat _ _ Ht) as (c & Hc & [Hg|Hb]).
-      * right. left. eapply (gap_sep M); eassumption.
-      * right. right. now exists c.
-    + destruct (in_flat _ _ Ht) as (c & Hc & [Hg|Hb]).
-      * right. left. eapply (gap_sep B); eassumption.
-      * left. apply in_or_app. right.
-        assert (Hin : In (c_body c) (map c_body B')) by (rewrite Eb; now apply in_map).
-        apply in_map_iff in Hin. destruct Hin as (c2 & E2 & Hc2). eapply in_flat_body; [exact Hc2|now rewrite E2].
+  assert (CN : forall t, In t (flat Nc) -> is_sep (tkind t) = true \/ exists b, In b news /\ In t b).
+  { intros t Ht. destruct (in_flat _ _ Ht) as (c & Hc & [Hg|Hb]).
+    - left. eapply (gap_sep Nc); eassumption.
+    - right. exists (c_body c). split; [rewrite <- En; now apply in_map|exact Hb]. }
+  assert (CM : forall t, In t (flat M) -> is_sep (tkind t) = true \/ exists c, In c M /\ In t (c_body c)).
+  { intros t Ht. destruct (in_flat _ _ Ht) as (c & Hc & [Hg|Hb]).
+    - left. eapply (gap_sep M); eassumption.
+    - right. now exists c. }
+  destruct B as [|b r]; destruct B' as [|b' r']; cbn in Et; try tauto.
+  - exists (pre ++ pht :: flat A), (flat M), (flat Nc), post.
+    split; [unfold lay; rewrite !flat_app, flat_nil, app_nil_r; repeat rewrite <- app_assoc; reflexivity|].
+    split; [unfold lay; rewrite !flat_app, flat_nil, app_nil_r; repeat rewrite <- app_assoc; reflexivity|].
+    split; assumption.
+  - destruct Et as [Eb ->].
+    exists (pre ++ pht :: flat A), (flat M ++ c_gap b), (flat Nc ++ c_gap b'), (c_body b ++ flat r ++ post).
+    split; [unfold lay; rewrite !flat_app, flat_cons; repeat rewrite <- app_assoc; reflexivity|].
+    split; [unfold lay; rewrite !flat_app, flat_cons, Eb; repeat rewrite <- app_assoc; reflexivity|].
+    split; intros t Ht; apply in_app_or in Ht; destruct Ht as [Ht|Ht]; auto; left.
+    + eapply (gap_sep (b' :: r)); [exact HokB'|now left|exact Ht].
+    + eapply (gap_sep (b :: r)); [exact HokB|now left|exact Ht].
 Qed.
 
 Lemma edit_flat : forall cs cs' M news, Forall cell_ok cs -> Forall cell_ok cs' -> Edit cs cs' M news ->
   (forall t, In t (flat cs') -> In t (flat cs) \/ is_sep (tkind t) = true \/ exists b, In b news /\ In t b) /\
   (forall t, In t (flat cs) -> In t (flat cs') \/ is_sep (tkind t) = true \/ exists c, In c M /\ In t (c_body c)).
 Proof.
-  intros cs cs' M news Hok Hok' (A & B & Nc & B' & -> & -> & En & Eb). split.
+  intros cs cs' M news Hok Hok' (A & B & Nc & B' & -> & -> & En & Et). pose proof (tail_eq_bodies _ _ Et) as Eb. split.
   - intros t Ht. destruct (in_flat _ _ Ht) as (c & Hc & Hgb).
     apply in_app_or in Hc. destruct Hc as [Hc|Hc].
     + left. destruct Hgb as [Hg|Hb]; [eapply in_flat_gap|eapply in_flat_body]; try eassumption; apply in_or_app; now left.
